@@ -1,10 +1,15 @@
 From Coq Require Extraction.
 From Coq Require Import ExtrOcamlBasic.
 From NV Require Import Base.Witness Io.Source Async.ReadExact Util.Detect Util.Fill Util.AsyncFill Util.Dispatch Util.Convert Util.ConvertFile.
+From NV Require Import Util.ConvertFile2 Util.ConvertVariant Bcf.StringMap Vcf.Values Vcf.Line.
+From NV Require Bgzf.Inflate.
 Extraction "model.ml" nv_types_witness build_a build_v detect_compression mk_inflated
   mkSource first_window build_src_a build_src_v
   mkASource polls_of async_window_case build_async_a build_async_v
   build_writer_a build_writer_v build_writer_path_a build_writer_path_v
   build_reader_kind_a build_reader_kind_v indexed_build_a indexed_build_v index_path
   finish_a finish_v vw_run vw_drop
-  convert_sam_bam convert_bam_sam convert_sam_bam_file.
+  convert_sam_bam convert_bam_sam convert_sam_bam_file
+  convert_sam_bam_bytes convert_bam_sam_file convert_sam_bam_bgzf_l0 convert_bam_sam_bgzf_l0
+  bgzf_unwrap bgzf_block_sizes Bgzf.Inflate.inflate
+  build_strings build_contigs convert_vcf_bcf convert_bcf_vcf convert_vcf_bcf_lines convert_bcf_vcf_blocks.
